@@ -290,7 +290,7 @@ func (en *DefaultEngine) empty(ctx context.Context) error {
 }
 
 // prepare engine for Init run.
-func (en *DefaultEngine) prepare(ctx context.Context) error {
+func (en *DefaultEngine) prepare(ctx context.Context, input []byte) error {
 	if en.execd {
 		err := en.empty(ctx)
 		if err != nil {
@@ -302,6 +302,10 @@ func (en *DefaultEngine) prepare(ctx context.Context) error {
 	en.exiting = false
 	if en.initd {
 		return nil
+	}
+	// refuse input that the state cannot hold before a session is loaded or created for the request
+	if len(input) > state.INPUT_LIMIT {
+		return fmt.Errorf("input size %v too large (limit %v)", len(input), state.INPUT_LIMIT)
 	}
 	err := en.preparePersist()
 	if err != nil {
@@ -428,7 +432,7 @@ func (en *DefaultEngine) setCode(ctx context.Context, code []byte) (bool, error)
 // It loads and executes code for the start node.
 func (en *DefaultEngine) init(ctx context.Context, input []byte) (bool, error) {
 	cont := true
-	err := en.prepare(ctx)
+	err := en.prepare(ctx, input)
 	if err != nil {
 		return false, err
 	}
